@@ -7,6 +7,9 @@ props = [json.loads(l) for l in open(os.path.join(HERE, 'properties.jsonl'))]
 TECH = json.load(open(os.path.join(HERE, 'tools', 'techniques.json')))
 repo_commits = subprocess.run(['git', '-C', '/repo', 'log', '--format=%H %s'], capture_output=True, text=True).stdout.splitlines()
 checks, na = [], []
+# what the widening passes of rounds 4-6 added to every module (DESIGN 8.4): stated once here, the per-property details are the `rule` texts of the evidence files
+GEN = ('; generators widened by construction with labelled input classes and floors (state carried between calls / sessions on one set of objects, in-place edits, one value in several raw types, '
+       'zone-aware stamps, values within a tolerance, shapes of user functions, boundary and out-of-domain inputs); thorough tier: the same generator / oracle pairs also under coverage-guided fuzzing (atheris)')
 for p in props:
     pid = p['id']
     t = TECH.get(pid)
@@ -22,7 +25,7 @@ for p in props:
         engine='pv',
         level_claimed=dict(category='exploration', text=t['level_text'], design_ref='DESIGN.md section 5, %s' % pid),
         level_note=t['level_note'],
-        technique=t['technique']))
+        technique=t['technique'] + GEN))
 man = dict(
     version=1,
     setup_cmd='/venv/bin/python -c "import hypothesis" 2>/dev/null || /venv/bin/pip install --no-index --find-links /opt/veriftools/wheels hypothesis; '
